@@ -7,12 +7,18 @@ from vf.refsql import cmp_vals, sort_key_cmp, canon_val
 REL_TOL = 1e-9
 
 
+def set_exact(flag=True):
+    """Checks whose subject is value fidelity (sorting, file readers, casts) compare floats exactly."""
+    global REL_TOL
+    REL_TOL = 0.0 if flag else 1e-9
+
+
 def dec_row(r):
     out = []
     for v in r:
         d = decode(v)
-        if isinstance(d, Fraction):
-            d = float(d) if d.denominator != 1 else int(d)
+        if isinstance(d, Fraction) and d.denominator == 1:
+            d = int(d)
         out.append(d)
     return tuple(out)
 
@@ -30,6 +36,8 @@ def val_eq(a, b):
             return fa != fa and fb != fb
         if fa == fb:
             return True
+        if fa in (float("inf"), float("-inf")) or fb in (float("inf"), float("-inf")):
+            return False
         return abs(fa - fb) <= REL_TOL * max(abs(fa), abs(fb), 1e-300)
     return a == b
 
@@ -45,13 +53,13 @@ def _sort_key(r):
             k.append((0, 0))
         elif isinstance(v, bool):
             k.append((1, int(v)))
-        elif isinstance(v, (int, float)):
+        elif isinstance(v, (int, float, Fraction)):
             f = float(v)
             if f != f:
                 k.append((3, 0))
             else:
                 # round to 8 significant digits so values within tolerance sort together
-                k.append((2, float("%.8g" % f)))
+                k.append((2, float("%.8g" % f) if REL_TOL else f))
         elif isinstance(v, str):
             k.append((4, v))
         else:
